@@ -190,9 +190,23 @@ func (v *Verifier) emit(st *State, kind, label string, tags []string, goal *Term
 		name = fmt.Sprintf("%s#%s", v.curFn, kind)
 	}
 	o := &Obligation{Name: name, Func: v.curFn, Kind: kind, Label: label, Tags: tags, Goal: goal, Src: src, PathID: v.pathN, Where: where, Expect: "unsat", D: v.D}
-	o.Assume = append([]*Term(nil), st.pc...)
+	o.Assume = dedupTerms(st.pc)
 	o.NDecls = -1
 	v.obls = append(v.obls, o)
+}
+
+func dedupTerms(ts []*Term) []*Term {
+	seen := make(map[string]bool, len(ts))
+	out := make([]*Term, 0, len(ts))
+	for _, t := range ts {
+		k := t.String()
+		if seen[k] {
+			continue
+		}
+		seen[k] = true
+		out = append(out, t)
+	}
+	return out
 }
 
 func posOf(fn *ssa.Function, p token.Pos) string {
@@ -925,8 +939,9 @@ func (v *Verifier) convert(st *State, a *Term, from, to types.Type, in ssa.Instr
 		}
 		return r
 	case fs == "Int" && ts == "String":
+		// string(rune): one byte for ASCII, an abstract multi-byte encoding otherwise
 		r := v.Y.fresh(v.D, "r2s", "String")
-		v.note("abstracted: rune->string conversion")
+		st.assume(tImp(tAnd(tCmp("<=", intLit(0), a), tCmp("<", a, intLit(128))), tEq(r, mk("String", "str.from_code", a))))
 		return r
 	}
 	// generic / unknown conversion: uninterpreted, deterministic
@@ -1103,11 +1118,11 @@ func (v *Verifier) sliceOp(st *State, x *ssa.Slice) *Term {
 // instantiateAt adds the instances of every registered quantified fact at index term i (engine-side
 // quantifier instantiation: keeps the queries ground where possible).
 func (v *Verifier) instantiateAt(st *State, i *Term) {
-	if _, lit := isIntLit(i); lit && len(st.qfacts) > 8 {
-		return
-	}
 	key := i.String()
 	for k, qf := range st.qfacts {
+		if qf.sort != i.Sort {
+			continue
+		}
 		tag := fmt.Sprintf("%d@%s", k, key)
 		if st.qdone == nil {
 			st.qdone = map[string]bool{}
@@ -1125,7 +1140,7 @@ func (v *Verifier) instantiateAt(st *State, i *Term) {
 func (v *Verifier) mapHeaps(st *State, mt *types.Map) (*HeapArr, *HeapArr) {
 	ks := v.sortOf(mt.Key())
 	vs := v.sortOf(mt.Elem())
-	dom := v.customHeap(st, "mapdom_"+sortTag(ks), "Ptr", "(Array "+ks+" Bool)")
+	dom := v.customHeap(st, "mapdom_"+sortTag(ks)+"_"+sortTag(vs), "Ptr", "(Array "+ks+" Bool)")
 	val := v.customHeap(st, "mapval_"+sortTag(ks)+"_"+sortTag(vs), "Ptr", "(Array "+ks+" "+vs+")")
 	return dom, val
 }
@@ -1224,9 +1239,12 @@ func (v *Verifier) rangeNext(st *State, x *ssa.Next) {
 	valA := vals.read(it.m)
 	val := mk(v.sortOf(mt.Elem()), "select", valA, k)
 	st.assume(tImp(ok, tAnd(tNot(tEq(it.m, tNilP)), mk("Bool", "select", domA, k), tNot(mk("Bool", "select", it.visited, k)))))
+	v.instantiateAt(st, k)
 	// exhaustion: every key visited
-	qk := mk(ks, "zz_qk")
-	st.assume(tImp(tNot(ok), mk("Bool", "forall ((zz_qk "+ks+"))", tImp(tAnd(tNot(tEq(it.m, tNilP)), mk("Bool", "select", domA, qk)), mk("Bool", "select", it.visited, qk)))))
+	if ks != "String" {
+		qk := mk(ks, "zz_qk")
+		st.assume(tImp(tNot(ok), mk("Bool", "forall ((zz_qk "+ks+"))", tImp(tAnd(tNot(tEq(it.m, tNilP)), mk("Bool", "select", domA, qk)), mk("Bool", "select", it.visited, qk)))))
+	}
 	it.visited = mk(it.visited.Sort, "store", it.visited, k, tTrue)
 	v.addTypeFacts(st, val, mt.Elem())
 	f.tuples[x] = []*Term{ok, k, val}
